@@ -338,7 +338,7 @@ class NumInterp(Interp):
                     recv = self.ev(n.func.value)
                 except Unsupported:
                     recv = None
-                if isinstance(recv, (str, list, tuple, dict)):
+                if isinstance(recv, (str, list, tuple, dict)) and hasattr(recv, n.func.attr):
                     args = [self.ev(a) for a in n.args]
                     return getattr(recv, n.func.attr)(*args)
             if isinstance(n.func, ast.Attribute) and n.func.attr == 'append':
